@@ -257,6 +257,14 @@ PROGRAMS = [
         ["assign", "flag", ["cmp", "<", ["v", "<p>n"], ["c", 1]], []],
         ["assign", "z", ["c", "cplx:1j"], []],
     ]}},
+    # a REAL array plus a COMPLEX scalar (either operand first): the sum is a complex array whatever is inferred first
+    {"name": "real_array_plus_complex_scalar", "phases": {"p": [
+        ["assign", "a", ["call", "<builtin>array", [["c", 3]], {}], []],
+        ["assign", "x", ["+", ["v", "a"], ["v", "c"]], []],
+        ["assign", "c", ["c", "cplx:2j"], []],
+        ["assign", "w", ["+", ["v", "c"], ["v", "a"], ["v", "<dt>"]], []],
+        ["assign", "p", ["*", ["v", "a"], ["v", "c"]], []],
+    ]}},
     {"name": "chain", "phases": {"p": [
         ["assign", "d", ["+", ["v", "c"], ["c", 1]], []],
         ["assign", "c", ["+", ["v", "b"], ["c", 1]], []],
